@@ -580,6 +580,12 @@ CORPUS = [
     ("bits", "(bits -)"),                                                       # T8a '' not '0'
     ("bits", "(bits 0)"), ("bits", "(bits 0000)"), ("bits", "(bits 0000000000000)"),   # all-zero, not empty
     ("(seq (r int) (r bits) (o bool))", "(seq (i 7) (bits 00000000) absent)"),
+    # long bit strings whose length is not a multiple of eight, around and beyond the interpreter's 4300-digit limit for
+    # decimal text (which does not apply to base 2): the text form is the value, bit for bit
+    ("bits", "(bits %s)" % ''.join('1' if (i * 7 + i // 3) % 5 < 2 else '0' for i in range(4299))),
+    ("bits", "(bits %s)" % ''.join('1' if (i * 7 + i // 3) % 5 < 2 else '0' for i in range(4301))),
+    ("(seq (r int) (r (tag i c 0 bits)))", "(seq (i 7) (bits %s))" % ''.join('1' if (i * 11 + i // 7) % 3 == 0 else '0' for i in range(5003))),
+    ("(seqof bits)", "(of (bits 1) (bits %s))" % ('0' * 4300 + '1' + '0' * 4700)),
     ("(seqof bits)", "(of (bits 0) (bits -) (bits 00) (bits 1))"),
     ("(seq (r (tag i c 0 bits)) (o int))", "(seq (bits -) absent)"),
     ("(seqof int)", "(of (i 1) (i 2))"),                                        # T8b options -> append
